@@ -50,7 +50,7 @@ def main():
         names = [n for n in names if any(n.startswith(a) for a in sys.argv[1:])]
     path = os.path.join(VERIF, "seeded", "RESULTS.json")
     res = json.load(open(path)) if os.path.exists(path) else {}
-    with ThreadPoolExecutor(max_workers=4) as ex:
+    with ThreadPoolExecutor(max_workers=6) as ex:
         for name, r in ex.map(one, names):
             res[name] = r
             print(name, r["outcome"], r.get("what", "")[:120])
